@@ -66,6 +66,8 @@ type Val struct {
 	// Prov marks where a ref value came from, for nilderef policy.
 	Fresh bool
 	Src   string // "pkg.Struct.field" when the value was loaded from that field (container invariants)
+	SrcBase string // the object the field was loaded from
+	Under *Val // for an interface value made here: the wrapped value (escape tracking)
 }
 
 var reByte = regexp.MustCompile(`\bbyte\b`)
